@@ -92,6 +92,13 @@ class BuildLock:
         self.f.close()
 
 
+def model_targets():
+    """the .vo files coq/Extract.v imports (From JLS Require Import ...)"""
+    txt = open(os.path.join(COQ, "Extract.v")).read()
+    m = re.search(r"From JLS Require Import ([^.]*)\.", txt)
+    return [n + ".vo" for n in (m.group(1).split() if m else [])]
+
+
 def forbidden_scan():
     bad = []
     for p in sorted(glob.glob(os.path.join(COQ, "*.v"))):
@@ -116,6 +123,8 @@ def build(ctx, prop_files, variants=("plain",), need_model=True):
                 os.path.getmtime(os.path.join(COQ, "Makefile.coq")) < os.path.getmtime(os.path.join(COQ, "_CoqProject")):
             sh("coq_makefile -f _CoqProject -o Makefile.coq", cwd=COQ)
         targets = [f.replace(".v", ".vo") for f in prop_files]
+        # model files needed by the extraction are always (re)built; proofs only for the property's own targets
+        targets = targets + model_targets()
         rc, out = sh(["timeout", "3000", "make", "-f", "Makefile.coq", "-k", "-j%d" % NPROC] + targets, cwd=COQ, timeout=3100)
         ctx.proof_build_log = out[-6000:]
         if rc != 0:
@@ -238,6 +247,8 @@ def finish(ctx, level, checker_cmd, trusted_extra=(), note=""):
     ctx.cov["distinct_nontrivial"] = len(ctx.distinct)
     nob = len(ctx.obligations)
     ndis = len([o for o in ctx.obligations if o["ok"]])
+    if level == "proof" and nob == 0:
+        level = "exploration"       # no theorem file for this property yet: the run is differential/oracle testing only
     cov = dict(ctx.cov)
     cov.update({
         "obligations": nob, "discharged": ndis, "checker_cmd": checker_cmd,
